@@ -6,6 +6,7 @@ use super::rlnsub::*;
 use super::*;
 use crate::explore::noderef::CircuitInputs;
 use crate::refmodel::codec;
+use crate::refmodel::field::*;
 use rln::circuit::{calculate_rln_witness, graph_from_folder};
 use rln::protocol::{deserialize_witness, proof_values_from_witness};
 use serde_json::json;
@@ -245,6 +246,19 @@ impl Prop for C04 {
     fn id(&self) -> &'static str { "C04" }
     fn level(&self) -> &'static str { "exploration" }
     fn run_case(&self, case: &Value) -> Vec<Discrepancy> {
+        if let (Some(a), Some(b)) = (CircuitInputs::from_json(&case["first"]), CircuitInputs::from_json(&case["inputs"])) {
+            // a sequence of two computations on this thread, the second one judged
+            let (wa, wb) = (witness_bytes(&a), witness_bytes(&b));
+            let r = guard(|| {
+                let _ = deserialize_witness(&wa).ok().and_then(|(w, _)| proof_values_from_witness(&w).ok());
+                deserialize_witness(&wb).ok().and_then(|(w, _)| proof_values_from_witness(&w).ok()).map(|v| vec![from_fr(&v.y), from_fr(&v.root), from_fr(&v.nullifier), from_fr(&v.x), from_fr(&v.external_nullifier)])
+            });
+            let want = ref_values(&b);
+            if r != Ok(Some(vec![want.y, want.root, want.nullifier, want.x, want.ext])) {
+                return vec![Discrepancy { key: "C04/native/sequence-of-two/wrong-values".into(), case: case.clone(), detail: "values computed right after another computation differ from the formulas".into() }];
+            }
+            return vec![];
+        }
         match CircuitInputs::from_json(&case["inputs"]) {
             Some(ci) => self.one(&ci, case["class"].as_str().unwrap_or("replay"), case["message"].as_bool().unwrap_or(false)).0,
             None => vec![],
@@ -276,7 +290,45 @@ impl Prop for C04 {
             }
             findings.report_all(out);
         }
-        ev.set("evaluations", json!(cases.len()));
+        // histories of two computations on one thread: every ordered pair of (limit, id) alternatives with the same
+        // secret (and of secrets with the same limit), the second one judged (a value kept from the first must not leak)
+        let seq_alts: Vec<CircuitInputs> = {
+            let mut v = vec![];
+            for (l, i) in limit_id_valid() {
+                let mut ci = default_inputs();
+                ci.limit = big(l);
+                ci.id = big(i);
+                v.push(ci);
+            }
+            for s in [big(1), pow2(64), p() - big(1)] {
+                let mut ci = default_inputs();
+                ci.secret = s;
+                v.push(ci);
+            }
+            v
+        };
+        let mut seq_pairs = 0u64;
+        {
+            let accepted_alts: Vec<&CircuitInputs> = seq_alts.iter().filter(|ci| matches!(node_witness(&verif_dir(), ci), Ok(Ok(_)))).collect();
+            for a in &accepted_alts {
+                for b in &accepted_alts {
+                    let wa = witness_bytes(a);
+                    let wb = witness_bytes(b);
+                    let r = guard(|| {
+                        let _ = deserialize_witness(&wa).ok().and_then(|(w, _)| proof_values_from_witness(&w).ok());
+                        deserialize_witness(&wb).ok().and_then(|(w, _)| proof_values_from_witness(&w).ok()).map(|v| vec![from_fr(&v.y), from_fr(&v.root), from_fr(&v.nullifier), from_fr(&v.x), from_fr(&v.external_nullifier)])
+                    });
+                    seq_pairs += 1;
+                    let want = ref_values(b);
+                    let want = vec![want.y, want.root, want.nullifier, want.x, want.ext];
+                    if r != Ok(Some(want)) {
+                        findings.report(Discrepancy { key: "C04/native/sequence-of-two/wrong-values".into(), case: json!({"inputs": b.to_json(), "class": "sequence", "message": false, "first": a.to_json()}), detail: format!("values computed right after another computation (limit {} id {} secret {}) differ from the formulas", a.limit, a.id, a.secret) });
+                    }
+                }
+            }
+        }
+        ev.set("evaluations", json!(cases.len() as u64 + seq_pairs));
+        ev.set("ordered_pairs_of_consecutive_computations", json!(seq_pairs));
         ev.set("accepted_by_reference", json!(accepted));
         ev.set("real_messages_checked", json!(messages));
         ev.set("deviation_bound", json!(if q { 1 } else { 2 }));
